@@ -35,6 +35,9 @@ type Config struct {
 	ReadOnly    bool   `json:"ro,omitempty"`
 	// NoWriteBackend mirrors `serve http`: writeOps == nil and no cache factory.
 	NoWriteBackend bool `json:"nowb,omitempty"`
+	// Overwrite builds the TapeManager with overwrite=true, as `stfs operation initialize` and
+	// `operation archive --overwrite` do: the first writer starts from an empty tape, later ones append.
+	Overwrite bool `json:"overwrite,omitempty"`
 }
 
 func (c Config) String() string {
@@ -133,7 +136,7 @@ func OpenPaths(drive, db, scratch string, cfg Config, ks *KeySet, w *Wrap) (*Ins
 	cfg.Normalise()
 	inst := &Instance{Dir: scratch, Drive: drive, DB: db, Cfg: cfg, Keys: ks}
 	mt := mtio.MagneticTapeIO{}
-	inst.TM = tape.NewTapeManager(inst.Drive, mt, cfg.RecordSize, false)
+	inst.TM = tape.NewTapeManager(inst.Drive, mt, cfg.RecordSize, cfg.Overwrite && !cfg.ReadOnly)
 	inst.MP = persisters.NewMetadataPersister(inst.DB)
 	if err := inst.MP.Open(); err != nil {
 		return nil, fmt.Errorf("open index: %w", err)
